@@ -17,7 +17,7 @@ def recon_vec(v, maxden, tol):
     d = 1
     for f in fr:
         d = d * f.denominator // gcd(d, f.denominator)
-    if d > maxden * maxden:
+    if d > maxden:
         return False, [0] * len(v), 1
     return True, [int(f * d) for f in fr], d
 
